@@ -11,6 +11,7 @@ use std::collections::{BTreeMap, BTreeSet, HashMap};
 use std::io::{Read, Seek, SeekFrom, Write};
 use std::net::SocketAddr;
 
+use prost::Message as _;
 use sozu_command_lib::{
     buffer::fixed::Buffer,
     certificate::{get_cn_and_san_attributes, parse_pem, parse_x509, Fingerprint},
@@ -1374,6 +1375,66 @@ pub fn run(cx: &Ctx, case: &Case, out: &mut Out, mode: Mode) {
                                 }
                             }
                         }
+                    }
+                }
+            }
+            "limits" => {
+                // size ceilings on the save / deliver paths (independent of the current state)
+                use sozu_command_lib::channel::Channel;
+                use sozu_command_lib::proto::command::{Response, WorkerResponse};
+                let max: u64 = sozu_command_lib::config::DEFAULT_MAX_COMMAND_BUFFER_SIZE;
+                let mk = |len: usize| -> Request {
+                    let mut c = cluster(0, 0, 0);
+                    c.cluster_id = "big".into();
+                    c.answer_503 = Some("x".repeat(len));
+                    RequestType::AddCluster(c).into()
+                };
+                // (i) a record of the JSON state file larger than the 200000-byte buffer of the load loop
+                let mut st = ConfigState::new();
+                let accepted = st.dispatch(&mk(250_000)).is_ok();
+                let mut f = tempfile();
+                let wrote = st.write_requests_to_file(&mut f).is_ok();
+                f.seek(SeekFrom::Start(0)).unwrap();
+                let (back, errs, msg) = load_state_like_master(&mut f);
+                let loaded = msg.is_none() && errs == 0 && norm_eq(&back, &st);
+                // the protobuf bootstrap blob goes through a file, not through the channel: no ceiling
+                let mut f2 = tempfile();
+                let _ = quiet_stdout(|| st.write_initial_state_to_file(&mut f2));
+                f2.seek(SeekFrom::Start(0)).unwrap();
+                let blob_ok = read_initial_state(&mut f2).map(|i| i == st.produce_initial_state()).unwrap_or(false);
+                // (ii) a request that fits the client channel but not the worker channel (the id is added)
+                let probe = mk(0);
+                let base = probe.encoded_len();
+                let mut len = (max as usize).saturating_sub(8 + base + 8);
+                let mut req = mk(len);
+                while req.encoded_len() + 8 > max as usize {
+                    len -= 1;
+                    req = mk(len);
+                }
+                while mk(len + 1).encoded_len() + 8 <= max as usize {
+                    len += 1;
+                    req = mk(len);
+                }
+                let wr = WorkerRequest { id: "01HZXK3V9ZQ8W5N2M4T6R7P0AB-1-WORKER-0".into(), content: req.clone() };
+                let (a, _b) = std::os::unix::net::UnixStream::pair().unwrap();
+                let (c, _d) = std::os::unix::net::UnixStream::pair().unwrap();
+                a.set_nonblocking(true).unwrap();
+                c.set_nonblocking(true).unwrap();
+                let mut client: Channel<Request, Response> = Channel::new(mio::net::UnixStream::from_std(a), 4096, max);
+                let mut worker: Channel<WorkerRequest, WorkerResponse> = Channel::new(mio::net::UnixStream::from_std(c), 1_000_000, max);
+                let client_ok = client.write_message(&req).is_ok();
+                let state_ok = ConfigState::new().dispatch(&req).is_ok();
+                let worker_res = worker.write_message(&wr);
+                out.obs(&[tn(accepted as i128), tn(wrote as i128), tn(loaded as i128), tn(blob_ok as i128), tn(client_ok as i128), tn(state_ok as i128), tn(worker_res.is_ok() as i128)]);
+                if mode == Mode::C05 {
+                    if accepted && wrote && !loaded {
+                        out.viol("limit-statefile-record", &format!("a 250000-byte request accepted by dispatch is written by write_requests_to_file but the load_state loop (200000-byte buffer) cannot read it back: {}", msg.unwrap_or_default()));
+                    }
+                    if !blob_ok {
+                        out.viol("limit-bootstrap-blob", "the protobuf bootstrap blob of a state with a 250000-byte request does not read back");
+                    }
+                    if client_ok && state_ok && worker_res.is_err() {
+                        out.viol("limit-channel-boundary", &format!("a request of {} bytes fits the client channel (max_command_buffer_size {max}) and is accepted by the state, but the same request wrapped with its worker id ({} bytes) cannot be written to the worker channel: {:?}", req.encoded_len() + 8, wr.encoded_len() + 8, worker_res.err()));
                     }
                 }
             }
